@@ -180,6 +180,14 @@ def cases(c):
         out.append(dict(base, form='function', fn='minvar', p={'order': order + 1, 'NFFT': 64, 'fs': 1.0}))
         out.append(dict(base, form='class', cls='pburg', p={'order': order}, NFFT=64, fs=1.0, reuse=None))
         out.append(dict(base, form='class', cls='pminvar', p={'order': order + 1}, NFFT=64, fs=1.0, reuse=None))
+    # large subspace dimension with an order-selection rule, at both ends of the amplitude range: products / sums of
+    # ~60 singular values must not under- or overflow into a different decision
+    for j, (N, P, cplx, snr, cc) in enumerate([(160, 60, 1, 60.0, 1e-3), (160, 60, 0, 40.0, 1e-3), (150, 50, 1, 60.0, 1e3),
+                                              (128, 40, 0, 60.0, 1e-3), (160, 60, 1, 20.0, 1e3), (140, 56, 1, 80.0, 1e-3)]):
+        for sel in ('mdl', 'aic'):
+            for fn in ('music', 'ev'):
+                out.append({'form': 'function', 'fn': fn, 'cplx': cplx, 'N': N, 'kind': 'tones', 'snr_db': snr, 'j': j,
+                            'c': [cc, 0.0], 'p': {'P': P, 'select': sel, 'NSIG': 2, 'NFFT': 128}, 'directed': j < 2})
     # low-power records through the adaptive multitaper (its stop rule must scale with the record power):
     # amplitude 0.1, c = 1e-3, default and long NFFT
     for j, (N, NFFT, cplx) in enumerate([(32, None, 0), (48, 1024, 1), (64, 1024, 0), (40, None, 1), (24, 512, 0), (72, 2048, 1)]):
